@@ -80,40 +80,40 @@ Proof. cbn zeta. eexists. eexists. split; [vm_compute; reflexivity|]. split; vm_
 (* ---- the aggregate terms, and whole sentences without outer variables (Cnl/AggregateTermProofs.v) ---- *)
 Require Import Cnl2aspV.Cnl.AggregateTermProofs.
 
-(* for the sentence forms 'shelf id of a host with room id L', 'room id of a host with shelf id L', 'room id that host a shelf L',
-   'shelf id where a room L hosts a shelf', 'weight, for each shelf id, where a room L hosts a shelf' and all four functions: under any
-   binding of L, on any admissible interpretation, the emitted aggregate term evaluates to the count/sum/maximum/minimum over the DISTINCT
-   qualifying tuples that the READING defines.  PARTIAL: not proved for the of-entity form, the plain-weight passive form, filters and
-   author-named counted values (all decided exhaustively per specification by the oracle). *)
+(* for ALL SEVEN sentence forms with an outer label L ('shelf id of a host with room id L', 'room id of a host with shelf id L', 'room id
+   that host a shelf L', 'shelf id / weight / weight, for each shelf id, where a room L hosts a shelf', 'host occurrences with room|shelf
+   id L') and all four functions: under any binding of L, on any admissible interpretation, the emitted aggregate term evaluates to the
+   count/sum/maximum/minimum over the DISTINCT qualifying tuples that the READING defines.  PARTIAL: not proved for filters ('where X is
+   ... k' moved inside the braces) and author-named counted values (decided exhaustively per specification by the oracle). *)
 Theorem C02_aggregate_term_value_partial :
   forall sp I b f l v form side,
   adm sp I -> hash_free b -> nohash l -> Util.sassoc l b = Some v ->
-  In (form, side) [(FParamShelf, KRoom); (FParamRoom, KShelf); (FActive, KShelf); (FPassiveShelf, KRoom); (FPassiveWeightEach, KRoom)] ->
+  In (form, side) [(FParamShelf, KRoom); (FParamRoom, KShelf); (FActive, KShelf); (FPassiveShelf, KRoom); (FPassiveWeightEach, KRoom); (FPassiveWeight, KRoom); (FEntity, KRoom); (FEntity, KShelf)] ->
   let g := {| g_fn := f; g_form := form; g_side := Some side; g_label := Some l; g_dlabel := None; g_filter := None |} in
   exists t, compile_aggr 1 g = Some t /\ agg_eval sp I b t = Some (agg_of sp I b g).
 Proof. exact bound_aggregate_term_value. Qed.
 Print Assumptions C02_aggregate_term_value_partial.
 
-(* END TO END for sentences without outer variables ('the <fn> shelf id of a host' / 'room id of a host' / 'room id that host a shelf'
-   compared with a number or a pair of numbers, required or prohibited, every phrase, every function, any rooms/shelves): the emitted
+(* END TO END for sentences without outer variables ('the <fn> shelf id of a host' / 'room id of a host' / 'room id that host a shelf' /
+   'host occurrences' compared with a number or a pair of numbers, required or prohibited, every phrase, every function, any rooms/shelves): the emitted
    constraint is violated by exactly the interpretations the READING excludes. *)
 Theorem C02_unbound_sentence_correct_partial :
   forall sp I f form,
-  adm sp I -> In form [FParamShelf; FParamRoom; FActive] ->
+  adm sp I -> In form [FParamShelf; FParamRoom; FActive; FEntity] ->
   a_agg sp = {| g_fn := f; g_form := form; g_side := None; g_label := None; g_dlabel := None; g_filter := None |} ->
   a_whenever sp = [] -> a_owhere sp = None -> (match a_cmp sp with CPhrase _ _ | CBetween _ _ => True | _ => False end) ->
   forall r, compile sp = Some r -> rule_violated sp I r = negb (reading sp I).
 Proof. exact unbound_aggregate_sentence_correct. Qed.
 Print Assumptions C02_unbound_sentence_correct_partial.
 
-(* END TO END with one outer variable: 'the <fn> shelf id of a host with room id L ..., whenever there is a room L' and the four other
-   forms of C02_aggregate_term_value_partial (the passive forms with or without the whenever clause), compared with a number or a pair
+(* END TO END with one outer variable: 'the <fn> shelf id of a host with room id L ..., whenever there is a room L' and the seven other
+   shapes of C02_aggregate_term_value_partial (the passive forms with or without the whenever clause), compared with a number or a pair
    of numbers, required or prohibited: the emitted constraint is violated by exactly the interpretations the READING excludes
    (for each binding of L in its domain, as the reading quantifies). *)
 Theorem C02_bound_sentence_correct_partial :
   forall sp I f l form side,
   adm sp I -> nohash l ->
-  In (form, side) [(FParamShelf, KRoom); (FParamRoom, KShelf); (FActive, KShelf); (FPassiveShelf, KRoom); (FPassiveWeightEach, KRoom)] ->
+  In (form, side) [(FParamShelf, KRoom); (FParamRoom, KShelf); (FActive, KShelf); (FPassiveShelf, KRoom); (FPassiveWeightEach, KRoom); (FPassiveWeight, KRoom); (FEntity, KRoom); (FEntity, KShelf)] ->
   a_agg sp = {| g_fn := f; g_form := form; g_side := Some side; g_label := Some l; g_dlabel := None; g_filter := None |} ->
   a_owhere sp = None -> (match a_cmp sp with CPhrase _ _ | CBetween _ _ => True | _ => False end) ->
   ((passive form = false /\ a_whenever sp = [(l, side)]) \/ (passive form = true /\ (a_whenever sp = [(l, KRoom)] \/ a_whenever sp = []))) ->
